@@ -106,6 +106,23 @@ def _stream_driver(lines, per_line):
     return ans
 
 
+def _close(m, s):
+    """agreement of the exact model's step `m` with the implementation's `s`: component by component to 1e-6 relative,
+    with an absolute allowance of 1e-9 of the norm of the step (a component that is 0 in exact arithmetic is rounding noise
+    in binary64)"""
+    m, s = np.asarray(m, float), np.asarray(s, float)
+    nrm = max(float(np.linalg.norm(s)), float(np.linalg.norm(m)), 1e-300)
+    return bool(np.all(np.abs(m - s) <= 1e-6 * np.maximum(np.abs(m), np.abs(s)) + 1e-9 * nrm))
+
+
+def _enough(stat, what):
+    """a correspondence that answered almost nothing establishes nothing: no verdict (exit 2) rather than a silent pass"""
+    if stat.get("cases", 0) >= 20 and stat.get("agree", 0) + stat.get("degenerate_second_phase_accepted", 0) < max(10, stat["cases"] // 4) \
+            and not stat.get("mismatches"):
+        raise RuntimeError(f"the exact driver answered too few cases of the {what} correspondence: {stat}")
+    return stat
+
+
 def _not_worse(c, s, m):
     """When the second phase starts in a null space of dimension <= 1 the direction of rotation is 0 / 0: the exact model
     stops there, binary64 rotates along rounding noise.  Such a step is accepted when it is at least as good for the model
@@ -159,16 +176,16 @@ def tcg_correspondence(rng, n_gen, nmax=4, whole=False):
             continue
         m = np.array([float(Fr(t)) for t in a.split()[1:]])
         sc = max(float(np.linalg.norm(s)), float(np.linalg.norm(m)), 1e-300)
-        if float(np.linalg.norm(m - s)) <= 1e-6 * sc:
+        if _close(m, s):
             agree += 1
         elif a.startswith("ok1d") and _not_worse(c, s, m):
             degenerate += 1
         else:
             mism.append((c, f"exact model step {m.tolist()} vs implementation {np.asarray(s).tolist()}"))
     boundary = sum(1 for a in ans if a is not None and a.startswith("ok1"))
-    return {"cases": len(cases), "agree": agree, "skipped_too_expensive": skipped, "mismatches": len(mism),
-            "degenerate_second_phase_accepted": degenerate,
-            **({"first_phase_ended_on_the_boundary": boundary} if whole else {})}, mism
+    return _enough({"cases": len(cases), "agree": agree, "skipped_too_expensive": skipped, "mismatches": len(mism),
+                    "degenerate_second_phase_accepted": degenerate,
+                    **({"first_phase_ended_on_the_boundary": boundary} if whole else {})}, "tangential"), mism
 
 
 def ctcg_correspondence(rng, n_gen, nmax=4):
@@ -218,16 +235,16 @@ def ctcg_correspondence(rng, n_gen, nmax=4):
         second += int(a.startswith("ok1"))
         mdl = np.array([float(Fr(t)) for t in a.split()[1:]])
         sc = max(float(np.linalg.norm(s)), float(np.linalg.norm(mdl)), 1e-300)
-        if float(np.linalg.norm(mdl - s)) <= 1e-6 * sc:
+        if _close(mdl, s):
             agree += 1
         elif a.startswith("ok1d") and _not_worse(c, s, mdl):
             degenerate += 1
         else:
             mism.append((c, f"exact model step {mdl.tolist()} vs implementation {np.asarray(s).tolist()} (improve_tcg={c['improve_tcg']})"))
-    return {"cases": len(cases), "agree": agree, "skipped_too_expensive": skipped, "mismatches": len(mism), "entered_the_second_phase": second,
-            "degenerate_second_phase_accepted": degenerate,
-            "with_inequality_rows": sum(1 for c in cases if len(c["bub"])), "with_equality_rows": sum(1 for c in cases if c["aeq"].shape[0]),
-            "left_out_because_of_an_all_zero_row": n_zero}, mism
+    return _enough({"cases": len(cases), "agree": agree, "skipped_too_expensive": skipped, "mismatches": len(mism), "entered_the_second_phase": second,
+                    "degenerate_second_phase_accepted": degenerate,
+                    "with_inequality_rows": sum(1 for c in cases if len(c["bub"])), "with_equality_rows": sum(1 for c in cases if c["aeq"].shape[0]),
+                    "left_out_because_of_an_all_zero_row": n_zero}, "constrained tangential"), mism
 
 
 def stats(out):
